@@ -309,20 +309,16 @@ static var Range_Get(var self, var key) {
   struct Range* r = self;
   struct Int* x = r->value;
   
+  int64_t n = Range_Len(r);
   int64_t i = c_int(key);
-  i = i < 0 ? Range_Len(r)+i : i;
+  i = i < 0 ? n+i : i;
   
-  if (r->step == 0) {
-    x->val = 0;
-    return x;
-  }
-  
-  if (r->step  > 0 and i >= 0 and (r->start + r->step * i) < r->stop) {
+  if (r->step  > 0 and i >= 0 and i < n) {
     x->val = r->start  + r->step * i;
     return x;
   }
   
-  if (r->step  < 0 and i >= 0 and (r->stop-1 + r->step * i) >= r->start) {
+  if (r->step  < 0 and i >= 0 and i < n) {
     x->val = r->stop-1 + r->step * i;
     return x;
   }
